@@ -450,7 +450,7 @@ def _normalize_python_version_specifier(marker: MarkerExpression) -> BaseSpecifi
         # skip this case, so in the following code value must be a dotted version string
         return marker.specifier
     splitted = [p.strip() for p in value.split(".")]
-    if len(splitted) > 2 and all(p == "0" for p in splitted[2:]):
+    if op != "~=" and len(splitted) > 2 and all(p == "0" for p in splitted[2:]):
         # "3.8.0" (as produced by merging python_version atoms) is the same
         # python_version as "3.8"
         splitted = splitted[:2]
